@@ -1,4 +1,5 @@
 import Rspirv.Props.ParserSpec
+import Rspirv.Props.ParserErr
 import Rspirv.Instances
 /-!
 # C03 — the parser accepts exactly the grammar and reports the first malformed instruction
@@ -17,7 +18,7 @@ What the error value carries (kind, instruction number, byte offset) is decided 
 (truncation at every byte, substitution and word-count corruption at every instruction): `C03_partial` at that layer.
 -/
 namespace Rspirv.Props.C03
-open Rspirv Rspirv.Model Rspirv.Model.DState Rspirv.Props.C11 Rspirv.Props.C04 Rspirv.Props.ParserSpec
+open Rspirv Rspirv.Model Rspirv.Model.DState Rspirv.Props.C11 Rspirv.Props.C04 Rspirv.Props.ParserSpec Rspirv.Props.ParserErr
 
 theorem inst_shrinks (G : Tables) (τ : Tracker) (ws : List Nat) (i : Inst) (rest : List Nat)
     (h : Spec.inst G τ ws = some (i, rest)) : rest.length < ws.length := by
@@ -63,7 +64,9 @@ theorem C03_loop (G : Tables) (hT : tablesSafe G = true) : ∀ (fuel : Nat) (τ 
       tr.reverse ++ (Spec.insts G fuel τ ws).1.map Ev.inst ++ (if (Spec.insts G fuel τ ws).2 = [] then [Ev.fin] else []) ∧
     ((parseLoop G (fun _ => .continue_) fuel τ k idx d tr).result = .ok () ↔ (Spec.insts G fuel τ ws).2 = []) ∧
     ((Spec.insts G fuel τ ws).2 ≠ [] →
-      ∃ e, (parseLoop G (fun _ => .continue_) fuel τ k idx d tr).result = .err (.inst e) ∧ e ≠ .complete)
+      ∃ e dF w0 t, (parseLoop G (fun _ => .continue_) fuel τ k idx d tr).result = .err (.inst e) ∧ e ≠ .complete ∧
+        (Spec.insts G fuel τ ws).2 = w0 :: t ∧ SView B dF (w0 :: t) ∧
+        ErrAt dF.offset (dF.offset + 4 * (w0 / 65536)) (idx + (Spec.insts G fuel τ ws).1.length + 1) e)
   | 0, _, _, _, _, _, _, _, h => absurd h (Nat.not_lt_zero _)
   | fuel + 1, τ, k, idx, d, tr, ws, hv, hf => by
     have hc : coreKindsOk G = true := by
@@ -97,15 +100,23 @@ theorem C03_loop (G : Tables) (hT : tablesSafe G = true) : ∀ (fuel : Nat) (τ 
             have hne : e ≠ .complete := by
               intro he; subst he
               exact parseInst_complete G τ (idx + 1) d w0 t hv d1 hr
+            have hat := parseInst_errAt G τ (idx + 1) d B w0 t hv e d1 hr
+            have fin : ∀ (r : Run), r.result = .err (.inst e) → r.trace = tr.reverse →
+                r.trace = tr.reverse ++ List.map Ev.inst ([] : List Inst) ++ (if (w0 :: t) = [] then [Ev.fin] else []) ∧
+                (r.result = .ok () ↔ (w0 :: t) = []) ∧
+                ((w0 :: t) ≠ [] → ∃ e' dF w0' t', r.result = .err (.inst e') ∧ e' ≠ .complete ∧ (w0 :: t) = w0' :: t' ∧
+                  SView B dF (w0' :: t') ∧ ErrAt dF.offset (dF.offset + 4 * (w0' / 65536)) (idx + ([] : List Inst).length + 1) e') := by
+              intro r h1 h2
+              refine ⟨by simp [h2], by simp [h1], fun _ => ⟨e, d, w0, t, h1, hne, rfl, hv, by simpa using hat⟩⟩
             cases e with
             | complete => exact absurd rfl hne
-            | wordCountZero _ _ => simp
-            | opcodeUnknown _ _ _ => simp
-            | operandExpected _ _ => simp
-            | operandExceeded _ _ => simp
-            | operandError _ => simp
-            | typeUnsupported _ _ => simp
-            | specConstantOpIntegerIncorrect _ _ => simp
+            | wordCountZero _ _ => exact fin _ rfl rfl
+            | opcodeUnknown _ _ _ => exact fin _ rfl rfl
+            | operandExpected _ _ => exact fin _ rfl rfl
+            | operandExceeded _ _ => exact fin _ rfl rfl
+            | operandError _ => exact fin _ rfl rfl
+            | typeUnsupported _ _ => exact fin _ rfl rfl
+            | specConstantOpIntegerIncorrect _ _ => exact fin _ rfl rfl
       | some p =>
         obtain ⟨i, rest⟩ := p
         rw [hs] at hagree
@@ -119,9 +130,14 @@ theorem C03_loop (G : Tables) (hT : tablesSafe G = true) : ∀ (fuel : Nat) (τ 
           simp only [List.length_cons] at hlt hf
           obtain ⟨h1, h2, h3⟩ := C03_loop G hT fuel τ1 (k + 1) (idx + 1) d' (Ev.inst i :: tr) rest hv' (by omega)
           simp only [consume]
-          refine ⟨?_, h2, h3⟩
-          rw [h1]
-          simp
+          refine ⟨?_, h2, ?_⟩
+          · rw [h1]; simp
+          · intro hne
+            obtain ⟨e, dF, w0', t', r1, r2, r3, r4, r5⟩ := h3 hne
+            refine ⟨e, dF, w0', t', r1, r2, r3, r4, ?_⟩
+            simp only [List.length_cons]
+            have : idx + 1 + (Spec.insts G fuel τ1 rest).1.length + 1 = idx + ((Spec.insts G fuel τ1 rest).1.length + 1) + 1 := by omega
+            rw [← this]; exact r5
 
 /-- the state after a complete header, seen as a stream of instruction words -/
 theorem header_sview (bytes : List Nat) (hb : ∀ b ∈ bytes, b < 256) (hs : bytes.length < 2 ^ 63) (h20 : 20 ≤ bytes.length) :
@@ -174,6 +190,33 @@ theorem C03_accept (G : Tables) (hT : tablesSafe G = true) (bytes : List Nat) (h
   refine ⟨h2, hd, ?_⟩
   rw [h1]
   simp
+
+/-- **C03 (the first malformed instruction is reported).** If the recogniser stops before the end of the stream, at the
+words `w0 :: t`, the parse ends with an instruction-level error (not `Complete`, no `finalize`) that carries — where its
+kind has the field — the 1-based number of that instruction (the number of delivered instructions plus one), and a byte
+offset inside its declared extent `[start, start + 4 * (w0 >> 16)]`, `start` being the offset of `w0` in the binary. -/
+theorem C03_reject (G : Tables) (hT : tablesSafe G = true) (bytes : List Nat) (hb : ∀ b ∈ bytes, b < 256)
+    (hs : bytes.length < 2 ^ 63) (h20 : 20 ≤ bytes.length) (hmagic : le32 bytes 0 = G.magic)
+    (hrest : (Spec.insts G (bytes.length + 1) [] (Spec.streamWords bytes)).2 ≠ []) :
+    ∃ e dF w0 t, (parse G (fun _ => .continue_) bytes).result = .err (.inst e) ∧ e ≠ .complete ∧
+      (Spec.insts G (bytes.length + 1) [] (Spec.streamWords bytes)).2 = w0 :: t ∧ SView bytes dF (w0 :: t) ∧
+      ErrAt dF.offset (dF.offset + 4 * (w0 / 65536))
+        ((Spec.insts G (bytes.length + 1) [] (Spec.streamWords bytes)).1.length + 1) e := by
+  obtain ⟨ws, d1, hw, hv, hws⟩ := header_sview bytes hb hs h20
+  have hlenw : (Spec.streamWords bytes).length < bytes.length + 1 := by
+    simp only [Spec.streamWords, List.length_map, List.length_range]; omega
+  let hd : Header := ⟨G.magic, (ws.getD 1 0 / 65536 % 256) * 65536 + (ws.getD 1 0 / 256 % 256) * 256, 0x000f0000, ws.getD 3 0, 0⟩
+  obtain ⟨_, _, h3⟩ := C03_loop G hT (bytes.length + 1) [] 2 0 d1 [.header hd, .init] _ hv hlenw
+  obtain ⟨e, dF, w0, t, r1, r2, r3, r4, r5⟩ := h3 hrest
+  refine ⟨e, dF, w0, t, ?_, r2, r3, r4, by simpa using r5⟩
+  have hm : (ws.getD 0 0 != G.magic) = false := by
+    rw [hws]; simp [hmagic]
+  unfold parse
+  simp only [consume]
+  unfold parseHeader
+  rw [hw]
+  simp only [hm, Bool.false_eq_true, if_false]
+  exact r1
 
 /-- fewer than five header words: rejected as an incomplete header, nothing but `initialize` is called -/
 theorem C03_header_short (G : Tables) (bytes : List Nat) (h : bytes.length < 20) :
@@ -239,5 +282,30 @@ theorem C03 (bytes : List Nat) (hb : ∀ b ∈ bytes, b < 256) (hs : bytes.lengt
     ((parse theTables (fun _ => .continue_) bytes).result = .ok () ↔
       (Spec.insts theTables (bytes.length + 1) [] (Spec.streamWords bytes)).2 = []) :=
   (C03_accept theTables tables_safe bytes hb hs h20 hmagic).1
+
+/-! ### non-vacuity: the recogniser on concrete words (kernel evaluation over the regenerated tables) -/
+
+open Rspirv.Instances in
+/-- `OpCapability Shader` = words `0x00020011, 1` -/
+example : Spec.inst theTables [] [0x00020011, 1, 77] = some (⟨17, none, none, [.w Rspirv.Generated.Operands.v_Capability 1]⟩, [77]) := by
+  decide +kernel
+
+open Rspirv.Instances in
+/-- `OpName %5 "ab"`: a string operand (NUL-terminated, zero padded) -/
+example : Spec.inst theTables [] [0x00030005, 5, 0x00006261] =
+    some (⟨5, none, none, [.w Rspirv.Generated.Operands.v_IdRef 5, .s [0x61, 0x62]]⟩, []) := by
+  decide +kernel
+
+open Rspirv.Instances in
+/-- an unknown enumerant, a missing operand and a surplus operand are rejected -/
+example : Spec.inst theTables [] [0x00020011, 0xffffffff] = none ∧ Spec.inst theTables [] [0x00010011] = none ∧
+    Spec.inst theTables [] [0x00030011, 1, 2] = none := by
+  decide +kernel
+
+open Rspirv.Instances in
+/-- a 64-bit literal under a tracked 64-bit integer type: low word first -/
+example : Spec.inst theTables [(1, .int 64 false)] [0x0005002b, 1, 2, 7, 9] =
+    some (⟨43, some 1, some 2, [.q (9 * 4294967296 + 7)]⟩, []) := by
+  decide +kernel
 
 end Rspirv.Props.C03
